@@ -7,6 +7,7 @@ from pyvc.unit import unit
 DEX = "androguard/core/dex/__init__.py"
 DEC = "androguard/decompiler/decompile.py"
 META = {
+    "technique": 'contract-based deductive verification: symbolic execution of the real functions against sidecar contracts (z3/cvc5) for the proved units; bounded contract evaluation (enumerated scope / independent writer) for the rest',
     "level": "other",
     "partial": True,
     "level_text": "Proof: EncodedValue.__init__/_getintvalue (every value type, every legal value_arg, every payload bit pattern), "
